@@ -140,8 +140,20 @@ def _gen_pair(rng, tier, i):
     if p is not None:
         a, b = _decorate(p[0], p[1], rng)
         return dict(a=a, b=b)
-    if i >= _n_exh(tier) + (300 if tier == "quick" else 3000):
+    if i >= _n_exh(tier) + (400 if tier == "quick" else 4000):
         return None
+    if rng.random() < 0.35:
+        # one keeper row with 3..6 disjoint exclusions that may or may not reach either edge
+        L = rng.choice([12, 40, 1000])
+        k = rng.randint(3, 6)
+        cuts = sorted(rng.sample(range(0, L + 1), 2 * k))
+        ex = [("chr1", cuts[2 * j], cuts[2 * j + 1]) for j in range(k) if cuts[2 * j + 1] > cuts[2 * j]]
+        if rng.random() < 0.5 and ex:
+            ex[0] = ("chr1", 0, ex[0][2])            # covers the left edge
+        if rng.random() < 0.5 and ex:
+            ex[-1] = ("chr1", ex[-1][1], L + rng.choice([0, 3]))      # reaches / passes the right edge
+        a = GA([("chr1", 0, L, "g0")] + ([("chr2", 0, 5, "g1")] if rng.random() < 0.3 else []), ("chromosome", "start", "end", "gene"))
+        return dict(a=a, b=GA(ex))
     small = rng.random() < 0.5
     return dict(a=_random_table(rng, big=not small, gene=rng.random() < 0.5), b=_random_table(rng, big=not small))
 
@@ -404,8 +416,10 @@ def _gen_query(rng, tier, i):
     small = rng.random() < 0.6
     single = rng.random() < 0.3
     ch = ("chr1",) if single else ("chr1", "chr2", "chrX")
-    return dict(a=_random_table(rng, big=not small, gene=True, chroms=ch),
-                b=_random_table(rng, nmax=12, big=not small, chroms=ch), mode=mode, keep_empty=keep)
+    a = _random_table(rng, big=not small, gene=True, chroms=ch)
+    if len(a) > 2 and rng.random() < 0.4:
+        a = a[a.data.index % 2 == rng.randint(0, 1)]      # filtered receiver: index labels are not positions
+    return dict(a=a, b=_random_table(rng, nmax=12, big=not small, chroms=ch), mode=mode, keep_empty=keep)
 
 
 def _expected_groups(a, b, mode, keep_empty):
